@@ -90,7 +90,7 @@ theorem generatedClass_spec (props : List PropSpec) :
       ∧ cd.fields.map Field.pyName = names
       ∧ cd.fields.map (loadKey cd) = (sortProps props).map PropSpec.name
       ∧ cd.fields.map (dumpKey cd) = (sortProps props).map PropSpec.name := by
-  obtain ⟨names, hfn, hnn, hlen⟩ := assignAll_map_spec sufUnderscore 2 sufUnderscore_inj sanMethod
+  obtain ⟨names, hfn, hnn, hlen⟩ := assignAll_map_spec sufUnderscore 2 sufUnderscore_inj dcFieldBase
     ((sortProps props).map PropSpec.name)
   have hfn' : fieldNames ((sortProps props).map PropSpec.name) = some names := hfn
   have hlen' : names.length = (sortProps props).length := by simpa using hlen
